@@ -160,7 +160,7 @@ class C12Prop(EnumProp):
                         and M.out_dir_rel(r_[0], r_[1]) not in before["tree"]]
                 copied[k] = bool(have) and inv.killed
                 return oracles.restore_violations(before, snap, inv.code, inv.killed, arch_rows,
-                                                  arch_path=getattr(st, "archive_orig_path", None) or getattr(st, "archive_path", None))
+                                                  arch_path=oracles._intact_archive_of(st))
 
             recs, total, exh = E.kill_enumeration(world, op, work, enum["budget"], r, evaluate)
             for rec in recs:
